@@ -55,8 +55,21 @@ func (g *Gen) restore(s genSnap) {
 
 // verifyContract generates all obligations for one contracted function.
 func (w *World) verifyContract(con *Contract) *Gen {
+	// pass 1 finds the heap arrays that the function writes only in memory it allocated itself
+	g1 := w.verifyContractPass(con, nil)
+	clean := map[string]bool{}
+	for name := range g1.heapArrs {
+		if !g1.dirty[name] {
+			clean[name] = true
+		}
+	}
+	return w.verifyContractPass(con, clean)
+}
+
+func (w *World) verifyContractPass(con *Contract, clean map[string]bool) *Gen {
 	fn := w.funcs[con.Name]
 	g := w.newGen(fn, con)
+	g.clean = clean
 	g.fnName = con.Name
 	g.checkOverflow = con.NoOverflow == ""
 	if fn == nil || len(fn.Blocks) == 0 {
@@ -67,6 +80,7 @@ func (w *World) verifyContract(con *Contract) *Gen {
 	st := &State{reach: "true", heap: &Heap{cur: map[string]string{}}}
 	f := &frame{g: g, fn: fn, inst: 0, regs: map[ssa.Value]Val{}, top: true, con: con, props: con.Props, callCtr: map[string]int{}}
 	al := g.arr(st.heap, "alloc", "Bool")
+	g.assume(fmt.Sprintf("(not (select %s 0))", al))
 	declParam := func(name string, t types.Type) Val {
 		v := g.havocVal("p_"+sanitize(name), t, "true")
 		switch sortOf(t) {
@@ -129,6 +143,7 @@ func (f *frame) checkPost(ri retInfo, pos token.Pos) {
 	con := f.con
 	env := &Env{g: g, vars: map[string]Val{}, heap: ri.heap, old: f.entry}
 	f.bindParams(env)
+	env.lookup = f.localsAt(f.curBlock)
 	for i, n := range con.Results {
 		if i < len(ri.vals) {
 			env.vars[n] = ri.vals[i]
@@ -180,13 +195,25 @@ func (f *frame) checkPost(ri retInfo, pos token.Pos) {
 		g.addObl("post", name, f.clauseProps(cl), ri.reach, t, nil, cl.Src, pos)
 	}
 	// fresh results
-	for _, fr := range con.Fresh {
+	for _, frs := range con.Fresh {
+		fr := frs
+		guard := ri.reach
+		if i := strings.Index(frs, " if "); i >= 0 {
+			fr = strings.TrimSpace(frs[:i])
+			if ce, err := parseExpr(frs[i+4:]); err == nil {
+				if ct, err := g.trBool(stripParens(ce), env); err == nil {
+					guard = and(ri.reach, ct)
+				}
+			}
+		}
 		if v, ok := env.vars[fr]; ok {
 			ref := v.T
 			if sortOf(v.Ty) == "Iface" {
 				ref = "(i-val " + v.T + ")"
+			} else if sortOf(v.Ty) == "Slice" {
+				ref = "(s-arr " + v.T + ")"
 			}
-			g.addObl("post", "post:fresh-"+fr, f.props, ri.reach,
+			g.addObl("post", "post:fresh-"+fr, f.props, guard,
 				fmt.Sprintf("(and (not (= %s 0)) (not (select %s %s)))", ref, g.arr(f.entry, "alloc", "Bool"), ref), nil, "fresh "+fr, pos)
 		}
 	}
@@ -230,10 +257,18 @@ func (f *frame) frameGoal(name, cur string) (string, bool) {
 			sl := m.slice.T
 			inner = append(inner, fmt.Sprintf("(and (= x!fr (s-arr %[1]s)) (<= (s-off %[1]s) k!fr) (< k!fr (+ (s-off %[1]s) (s-len %[1]s))))", sl))
 		}
-		return fmt.Sprintf("(forall ((x!fr Int) (k!fr Int)) (! (=> (and %s (not %s)) (= (select (select %s x!fr) k!fr) (select (select %s x!fr) k!fr))) :pattern ((select (select %s x!fr) k!fr))))",
-			strings.Join(conds, " "), or(inner...), cur, old, cur), true
+		pat := ""
+		if !strings.ContainsAny(cur, "( ") {
+			pat = fmt.Sprintf(" :pattern ((select (select %s x!fr) k!fr))", cur)
+		}
+		return fmt.Sprintf("(forall ((x!fr Int) (k!fr Int)) (! (=> (and %s (not %s)) (= (select (select %s x!fr) k!fr) (select (select %s x!fr) k!fr))) :qid frame%s))",
+			strings.Join(conds, " "), or(inner...), cur, old, pat), true
 	}
-	return fmt.Sprintf("(forall ((x!fr Int)) (! (=> (and %s) (= (select %s x!fr) (select %s x!fr))) :pattern ((select %s x!fr))))", strings.Join(conds, " "), cur, old, cur), true
+	pat := ""
+	if !strings.ContainsAny(cur, "( ") {
+		pat = fmt.Sprintf(" :pattern ((select %s x!fr))", cur)
+	}
+	return fmt.Sprintf("(forall ((x!fr Int)) (! (=> (and %s) (= (select %s x!fr) (select %s x!fr))) :qid frame%s))", strings.Join(conds, " "), cur, old, pat), true
 }
 
 // checkFrame: every heap location that existed at entry and is not covered by "modifies" is unchanged.
@@ -241,7 +276,7 @@ func (f *frame) checkFrame(ri retInfo, pos token.Pos) {
 	g := f.g
 	for _, name := range sortedKeys(ri.heap.cur) {
 		cur := ri.heap.cur[name]
-		if cur == g.arr(f.entry, name, g.heapArrs[name]) {
+		if cur == g.arr(f.entry, name, g.heapArrs[name]) || g.clean[name] {
 			continue
 		}
 		if goal, ok := f.frameGoal(name, cur); ok {
